@@ -503,8 +503,8 @@ where
         let res = catch_unwind(AssertUnwindSafe(|| {
             let what_v = format!("{}/vec: SortedDeque::iter() against the reference ordered map", V::NAME);
             let what_s = format!("{}/smallvec: SortedDeque::iter() against the reference ordered map", V::NAME);
-            let a = its::run_both("C16", &what_v, &steps, script, its::forward(cur.v.iter(), |x: &V::Item| fmt_raw(V::raw(x))), items.clone(), false);
-            let b = its::run_both("C16", &what_s, &steps, script, its::forward(cur.s.iter(), |x: &V::Item| fmt_raw(V::raw(x))), items.clone(), false);
+            let a = its::run_both("C16", &what_v, &steps, script, its::forward(cur.v.iter(), |x: &V::Item| fmt_raw(V::raw(x)), its::cap_for(items.len())), items.clone(), false);
+            let b = its::run_both("C16", &what_s, &steps, script, its::forward(cur.s.iter(), |x: &V::Item| fmt_raw(V::raw(x)), its::cap_for(items.len())), items.clone(), false);
             (a, b)
         }));
         so.tags.push(format!("{}_op_iterscript", V::NAME));
